@@ -321,6 +321,31 @@ static void p0_run(uint64_t idx, vh_rng_t * rng) {
     vh_distinct(vh_hash(msg.p, msg.len, vh_hash(tt.p, tt.len, 2)));
     SCPI_ErrorClear(v->ctx);
     } /* messages of this context */
+    /* several messages completed by ONE input call: each of them starts with an empty path, whatever the message in front of it ended with */
+    if (idx % 4 == 1) {
+        static vh_buf_t two, e2; int k2;
+        vh_buf_reset(&two); vh_buf_reset(&e2);
+        for (k2 = 0; k2 < 2 + (int) (idx % 8 == 5); k2++) {
+            gen_message(rng, &msg);
+            vh_buf_add(&two, msg.p, msg.len);
+            for (u = 0; u < NU; u++) {
+                if (U[u].tag && Tnull[U[u].tag - 1]) continue;
+                if (U[u].tag) { vh_buf_printf(&e2, "H %d ", U[u].tag); vh_buf_add_escaped(&e2, U[u].effective, strlen(U[u].effective)); vh_buf_addc(&e2, '\n'); }
+                else vh_buf_adds(&e2, "E -113\n");
+            }
+        }
+        vh_ctx_clear_capture(v);
+        g_nexp = 0; g_inv = 0; /* the handler's own IsCmd probes refer to one message's unit list: not used here */
+        vh_case_desc("table {%s} messages in one input call \"%s\"", vh_buf_cstr(&tt), vh_esc(two.p, two.len));
+        if (two.len + 2 < 600) {
+            vh_input(v, two.p, two.len);
+            vh_eval(1);
+            if (strcmp(vh_buf_cstr(&v->log), vh_buf_cstr(&e2)) != 0)
+                vh_violation("C02:messages-in-one-input-call", "table {%s}; \"%s\" in ONE input call: events got [%s] expected [%s] (each message starts with an empty path)", vh_buf_cstr(&tt), vh_esc(two.p, two.len), vh_esc(v->log.p, v->log.len), vh_esc(e2.p, e2.len));
+            vh_count("messages.several_completed_by_one_input_call", 1);
+        }
+        SCPI_ErrorClear(v->ctx);
+    }
     if (NU >= 3 && vh_want_sample()) vh_sample("table {%s} message \"%s\" -> %s", vh_buf_cstr(&tt), vh_esc(msg.p, msg.len), vh_esc(expect_log.p, expect_log.len));
     vh_ctx_free(v);
 }
@@ -330,6 +355,6 @@ int main(int argc, char ** argv) {
     vh_scribble_chunk_in_callbacks(1); vh_decoy_enable(7); vh_require("decoy.messages_run_on_a_second_context"); vh_require("unit.defined.relative.after-defined-compound"); vh_require("unit.defined.relative.after-undefined-compound");
     vh_require("unit.defined.relative.after-common"); vh_require("unit.undefined.relative.after-defined-compound");
     vh_require("unit.defined.absolute.after-defined-compound"); vh_require("unit.overlap_first_match_matters");
-    vh_require("handler.iscmd_checks"); vh_require("messages.ended_by_zero_length_input_call"); vh_require("tables.installed_on_a_live_context"); vh_require("messages.on_a_context_that_served_earlier_messages"); vh_require("unit.first_match_without_handler_shadows_later_handler"); vh_require("tables.from_shipped_patterns"); vh_require("headers.numeric_suffix_above_65536"); vh_require("units.empty_unit_at_the_end"); vh_require("units.empty_unit_in_front"); vh_require("units.empty_unit_in_the_middle"); vh_require("messages.ended_by_separator_and_zero_length_call_followed_by_another_message");
+    vh_require("handler.iscmd_checks"); vh_require("messages.ended_by_zero_length_input_call"); vh_require("tables.installed_on_a_live_context"); vh_require("messages.on_a_context_that_served_earlier_messages"); vh_require("unit.first_match_without_handler_shadows_later_handler"); vh_require("tables.from_shipped_patterns"); vh_require("headers.numeric_suffix_above_65536"); vh_require("messages.several_completed_by_one_input_call"); vh_require("units.empty_unit_at_the_end"); vh_require("units.empty_unit_in_front"); vh_require("units.empty_unit_in_the_middle"); vh_require("messages.ended_by_separator_and_zero_length_call_followed_by_another_message");
     return vh_main(argc, argv, "C02", phases, 1);
 }
